@@ -214,7 +214,11 @@ def rule_CC(run: Run) -> RuleResult:
                 continue
             base, attrs = max(bases.items(), key=lambda kv: len(kv[1]))
             if len(attrs) < 2 and len(carried_attrs) > 2:
-                continue
+                # one field only — still a rebuild when the function established that the base is an instance of the class built
+                same_kind = any(isinstance(x, ast.Call) and astu.short_name(x) == "isinstance" and len(x.args) == 2 and ast.unparse(x.args[0]) == base
+                                and repo.resolve_class(m, x.args[1]) is target for x in ast.walk(fn) if isinstance(x.args[1] if isinstance(x, ast.Call) and len(x.args) == 2 else None, (ast.Name, ast.Attribute)))
+                if not same_kind:
+                    continue
             # bind the call's arguments to parameters
             passed: Set[str] = set()
             pos_i = 0
@@ -286,6 +290,115 @@ def astu_owner(fn, node):
     return best
 
 
+# ------------------------------------------------------------------ R-UW
+def dict_copying_calls(tree: ast.AST) -> List[tuple]:
+    """(line, text) of every call that copies one object's attribute dictionary onto another: functools.wraps /
+    update_wrapper without ``updated=()``, ``a.__dict__.update(b.__dict__)``, ``vars(a).update(vars(b))``."""
+    out = []
+    as_decorator = {id(d) for f in ast.walk(tree) if isinstance(f, (ast.FunctionDef, ast.AsyncFunctionDef)) for d in f.decorator_list}
+    for n in ast.walk(tree):
+        if not isinstance(n, ast.Call):
+            continue
+        nm = astu.callee_name(n)
+        if id(n) in as_decorator:
+            continue        # @functools.wraps(f) above a def decorates a plain function: its own __dict__ is empty and its own
+        if nm.split(".")[-1] in ("wraps", "update_wrapper") and (nm.startswith("functools.") or nm in ("wraps", "update_wrapper")):
+            upd = [k for k in n.keywords if k.arg == "updated"]
+            empty = upd and isinstance(upd[0].value, (ast.Tuple, ast.List)) and not upd[0].value.elts
+            if not empty:
+                out.append((n.lineno, ast.unparse(n)[:70] + " copies __dict__ (no updated=())"))
+        if isinstance(n.func, ast.Attribute) and n.func.attr == "update" and n.args:
+            recv, arg = ast.unparse(n.func.value), ast.unparse(n.args[0])
+            if (recv.endswith(".__dict__") or recv.startswith("vars(")) and ("__dict__" in arg or arg.startswith("vars(")):
+                out.append((n.lineno, ast.unparse(n)[:70]))
+    return out
+
+
+def rule_UW(run: Run) -> RuleResult:
+    """Wrapping never copies the wrapped object's attributes wholesale."""
+    res = RuleResult("R-UW")
+    nec = ("a dataset (or dataset class) that takes over name and docstring of what it wraps must not take over its __dict__: when the wrapped "
+           "object is itself a dataset, its overloads, cache, options, callback and effects silently replace the ones just configured "
+           "(C07, C08, C16)")
+    probe = ast.parse("import functools\ndef wrap(new, old):\n    return functools.wraps(old)(new)\n")
+    if not dict_copying_calls(probe):
+        raise AnalysisError("R-UW: the detector no longer sees its positive example")
+    n = 0
+    for m in run.repo.modules.values():
+        if m.name.startswith("labrea.mypy"):
+            continue
+        hits = dict_copying_calls(m.tree)
+        n += sum(1 for x in ast.walk(m.tree) if isinstance(x, ast.Call) and astu.callee_name(x).split(".")[-1] in ("wraps", "update_wrapper"))
+        res.add(f"{m.name}:wrapping copies no __dict__", not hits, m.relpath, hits[0][0] if hits else 1,
+                "every update_wrapper passes updated=()" if not hits else hits[0][1] + f" (line {hits[0][0]})", nec)
+    res.count("wrapping_sites", n)
+    return res
+
+
+# ------------------------------------------------------------------ R-OC
+def rule_OC(run: Run) -> RuleResult:
+    """One cache per dataset: MemoryCache addresses an entry by the option fingerprint alone."""
+    res = RuleResult("R-OC")
+    repo = run.repo
+    nec = ("the fingerprint does not name the dataset: two datasets that read the same options and share one cache object return each "
+           "other's values (C01, C17).  A cache is shared only when the user handed in that very instance; a cache class or factory "
+           "is called once per dataset, and the default MemoryCache is created per dataset")
+    from .interp import analyse_function, Frame
+    df = repo.cls("DatasetFactory")
+    wrap = df.find_method("wrap")
+    init = df.find_method("__init__")
+    if wrap is None or init is None:
+        raise AnalysisError("DatasetFactory.wrap / __init__ not found")
+    f = df.module.relpath
+    # (a) configuring the decorator creates no cache
+    bad = None
+    for p in analyse_function(Ctx(repo), init[0].module, init[1], cls=df):
+        for e in p.events:
+            if e.kind != "call":
+                continue
+            tk = e.target.key() if e.target is not None else ""
+            if e.text == "new MemoryCache" or e.text == "cache" or (tk in ("cache", "attr:cache(self)") and e.text in ("<value>", "call")) or e.text.startswith("call:cache"):
+                bad = bad or (e.line, f"{e.text} at line {e.line}")
+            if any(a.key() in ("call:cache", "callres(cache)", "valuecall(cache)") for a in e.args):
+                bad = bad or (e.line, f"the cache factory is called at line {e.line}")
+        if p.status == "ret":
+            for e in p.events:
+                if e.kind == "store" and e.target is not None and ("new:MemoryCache" in e.target.key() or e.target.key().startswith(("call:cache", "valuecall(cache", "callres(cache"))):
+                    bad = bad or (e.line, f"self.{e.args[1].v if len(e.args) == 2 and isinstance(e.args[1], Const) else '?'} = {e.target.key()[:40]}")
+    res.add("labrea.dataset.DatasetFactory.__init__:creates no cache", bad is None, f, bad[0] if bad else init[1].lineno,
+            "the cache argument is kept as given" if bad is None else f"{bad[1]}: every dataset the decorator is applied to would share that object", nec)
+    # (b) wrap() gives each dataset a cache of its own unless it was handed an instance
+    seen = {}
+    n_ret = 0
+    for p in analyse_function(Ctx(repo), wrap[0].module, wrap[1], cls=df):
+        if p.status != "ret" or not isinstance(p.ret, New) or p.ret.cls.name != "Dataset":
+            continue
+        n_ret += 1
+        c = p.ret.attrs.get("cache")
+        ck = c.key() if c is not None else "missing"
+        at = Frame.atoms(p.conds)
+        is_none = at.get("cmp:Is(attr:cache(self),Const(None))")
+        is_callable = at.get("call:callable(attr:cache(self))")
+        if ck == "attr:cache(self)":
+            ok = is_none is False and is_callable is not True
+            form = "the instance handed in"
+        elif ck.startswith("new:MemoryCache"):
+            ok = any(e.kind == "call" and e.text == "new MemoryCache" for e in p.events)
+            form = "a fresh MemoryCache"
+        elif ck in ("call:cache(self)", "valuecall(attr:cache(self))", "callres(attr:cache(self))", "call:attr:cache(self)"):
+            ok = True
+            form = "the result of calling the factory here"
+        else:
+            ok = False
+            form = ck[:60]
+        prev = seen.get(form, True)
+        seen[form] = prev and ok
+    okb = bool(seen) and all(seen.values()) and n_ret > 0 and any(k.startswith("a fresh") for k in seen)
+    res.add("labrea.dataset.DatasetFactory.wrap:each dataset gets its own cache unless an instance was handed in", okb, f, wrap[1].lineno,
+            f"cache of the built dataset: {sorted(seen)}" if okb else f"cache of the built dataset: { {k: v for k, v in seen.items()} }", nec)
+    return res
+
+
 # ------------------------------------------------------------------ R-CL
 OPNAMES = {"evaluate", "validate", "explain", "fingerprint", "transform"}
 OP_METHODS = {"evaluate", "validate", "keys", "explain", "fingerprint", "transform", "__call__", "run"}
@@ -303,9 +416,13 @@ def _cl_exempt(repo) -> Dict[str, str]:
         return dict(CL_EXEMPT)
 
 
+CACHE_FACTORY_CALLS = {("Dataset", "set_cache"): "set_cache(factory): the factory is called once for this dataset (R-OC)"}
+
+
 def _op_sites(repo, m, cls, fn) -> List[ast.Call]:
     out = []
     ann_nodes: Set[str] = set()
+    all_params = {a.arg for a in fn.args.posonlyargs + fn.args.args + fn.args.kwonlyargs}
     for a in fn.args.posonlyargs + fn.args.args + fn.args.kwonlyargs:
         if a.annotation is not None:
             from .interp import annotation_kind
@@ -335,6 +452,11 @@ def _op_sites(repo, m, cls, fn) -> List[ast.Call]:
                             out.append(c)
                         break
         if isinstance(f0, ast.Name) and f0.id in ann_nodes:
+            out.append(c)
+        # calling an object the user passed, with no arguments, evaluates it when it is an expression (a dataset class is both a
+        # type and an expression; every expression is callable).  The one documented use is the cache factory of a dataset.
+        if isinstance(f0, ast.Name) and f0.id in all_params and not c.args and not c.keywords \
+                and not (cls is not None and (cls.name, fn.name) in CACHE_FACTORY_CALLS):
             out.append(c)
     return out
 
